@@ -313,3 +313,221 @@ pub fn ignore_sigpipe() {
         libc::signal(libc::SIGPIPE, libc::SIG_IGN);
     }
 }
+
+// ---------------------------------------------------------------------------
+// Zygote workers. Forking from the driver (or from a worker that inherited the driver's address space) costs
+// milliseconds once the pools are in memory: the kernel copies page tables for everything mapped (measured here:
+// 0.27 ms from a small process, 6-8 ms from a 200 MB one). The workers are therefore forked at program start,
+// while the process is tiny, and never grow: the driver sends each item's self-contained payload over a pipe, the
+// worker forks the item child (from its own small address space), collects the child's output with a wall-clock
+// limit and sends it back. One item per worker at a time; the driver hands out items as workers become free.
+
+struct Zygote {
+    cmd_w: i32,
+    res_r: i32,
+    busy: Option<usize>,
+    buf: Vec<u8>,
+}
+
+static mut ZYGOTES: Vec<Zygote> = Vec::new();
+static mut ITEM_ENTRY: Option<fn(&[u8]) -> !> = None;
+
+fn read_exact_fd(fd: i32, buf: &mut [u8]) -> bool {
+    let mut off = 0;
+    while off < buf.len() {
+        let n = unsafe { libc::read(fd, buf[off..].as_mut_ptr() as *mut libc::c_void, buf.len() - off) };
+        if n == 0 {
+            return false;
+        }
+        if n < 0 {
+            if std::io::Error::last_os_error().raw_os_error() == Some(libc::EINTR) {
+                continue;
+            }
+            return false;
+        }
+        off += n as usize;
+    }
+    true
+}
+
+fn zygote_loop(cmd_r: i32, res_w: i32) -> ! {
+    let entry = unsafe { ITEM_ENTRY };
+    loop {
+        let mut hdr = [0u8; 12];
+        if !read_exact_fd(cmd_r, &mut hdr) {
+            unsafe { libc::_exit(0) }
+        }
+        let idx = u32::from_le_bytes([hdr[0], hdr[1], hdr[2], hdr[3]]);
+        let timeout_ms = u32::from_le_bytes([hdr[4], hdr[5], hdr[6], hdr[7]]);
+        let len = u32::from_le_bytes([hdr[8], hdr[9], hdr[10], hdr[11]]) as usize;
+        let mut payload = vec![0u8; len];
+        if !read_exact_fd(cmd_r, &mut payload) {
+            unsafe { libc::_exit(0) }
+        }
+        let (bytes, exit) = run_item(
+            || match entry {
+                Some(f) => f(&payload),
+                None => Vec::new(),
+            },
+            Duration::from_millis(timeout_ms as u64),
+        );
+        drop(payload);
+        let mut frame = Vec::with_capacity(bytes.len() + 13);
+        frame.extend_from_slice(&idx.to_le_bytes());
+        frame.extend_from_slice(&exit.to_bytes());
+        frame.extend_from_slice(&(bytes.len() as u32).to_le_bytes());
+        frame.extend_from_slice(&bytes);
+        write_all_fd(res_w, &frame);
+    }
+}
+
+/// Fork `n` zygote workers. Must be called once, at program start, before the process allocates anything big and
+/// before it creates threads. `entry` is what an item child runs on its payload.
+pub fn spawn_zygotes(n: usize, entry: fn(&[u8]) -> !) {
+    unsafe {
+        ITEM_ENTRY = Some(entry);
+    }
+    for _ in 0..n {
+        let (cmd_r, cmd_w) = pipe();
+        let (res_r, res_w) = pipe();
+        let pid = unsafe { libc::fork() };
+        if pid < 0 {
+            harness_die("fork() of zygote failed");
+        }
+        if pid == 0 {
+            unsafe {
+                libc::prctl(libc::PR_SET_PDEATHSIG, libc::SIGKILL);
+                libc::close(cmd_w);
+                libc::close(res_r);
+                // the pipes of the zygotes created before this one
+                let zs = &*std::ptr::addr_of!(ZYGOTES);
+                for z in zs.iter() {
+                    libc::close(z.cmd_w);
+                    libc::close(z.res_r);
+                }
+            }
+            zygote_loop(cmd_r, res_w);
+        }
+        unsafe {
+            libc::close(cmd_r);
+            libc::close(res_w);
+            (*std::ptr::addr_of_mut!(ZYGOTES)).push(Zygote { cmd_w, res_r, busy: None, buf: Vec::new() });
+        }
+    }
+}
+
+pub fn zygote_count() -> usize {
+    unsafe { (*std::ptr::addr_of!(ZYGOTES)).len() }
+}
+
+/// Run items 0..n on the first `workers` zygotes. `payload(i)` is called in the driver, in increasing order of i,
+/// right before item i is handed to a free worker (None = skip the item); `keep_going()` is consulted before each
+/// hand-out; `sink(i, bytes, exit)` receives results as they arrive.
+pub fn zmap(
+    n: usize,
+    workers: usize,
+    item_timeout: Duration,
+    deadline: Option<Instant>,
+    keep_going: &mut dyn FnMut() -> bool,
+    payload: &mut dyn FnMut(usize) -> Option<Vec<u8>>,
+    sink: &mut dyn FnMut(usize, Vec<u8>, Exit),
+) {
+    let zs = unsafe { &mut *std::ptr::addr_of_mut!(ZYGOTES) };
+    if zs.is_empty() {
+        harness_die("zmap called before spawn_zygotes");
+    }
+    let k = workers.max(1).min(zs.len());
+    let tmo = item_timeout.as_millis().min(u32::MAX as u128) as u32;
+    let mut next = 0usize;
+    let mut inflight = 0usize;
+    let mut tmp = vec![0u8; 1 << 16];
+    loop {
+        // hand out
+        let mut stop = next >= n;
+        if !stop {
+            if let Some(d) = deadline {
+                if Instant::now() >= d {
+                    stop = true;
+                }
+            }
+        }
+        if !stop && !keep_going() {
+            stop = true;
+        }
+        if stop {
+            next = n;
+        }
+        for w in 0..k {
+            if next >= n {
+                break;
+            }
+            if zs[w].busy.is_some() {
+                continue;
+            }
+            let i = next;
+            next += 1;
+            let p = match payload(i) {
+                Some(p) => p,
+                None => continue,
+            };
+            let mut frame = Vec::with_capacity(p.len() + 12);
+            frame.extend_from_slice(&(i as u32).to_le_bytes());
+            frame.extend_from_slice(&tmo.to_le_bytes());
+            frame.extend_from_slice(&(p.len() as u32).to_le_bytes());
+            frame.extend_from_slice(&p);
+            write_all_fd(zs[w].cmd_w, &frame);
+            zs[w].busy = Some(i);
+            inflight += 1;
+        }
+        if inflight == 0 {
+            if next >= n {
+                break;
+            }
+            continue;
+        }
+        // collect
+        let mut pfds: Vec<libc::pollfd> = Vec::new();
+        let mut idx = Vec::new();
+        for w in 0..k {
+            if zs[w].busy.is_some() {
+                pfds.push(libc::pollfd { fd: zs[w].res_r, events: libc::POLLIN, revents: 0 });
+                idx.push(w);
+            }
+        }
+        let r = unsafe { libc::poll(pfds.as_mut_ptr(), pfds.len() as libc::nfds_t, 200) };
+        if r <= 0 {
+            continue;
+        }
+        for (q, p) in pfds.iter().enumerate() {
+            if p.revents == 0 {
+                continue;
+            }
+            let w = idx[q];
+            let nrd = unsafe { libc::read(zs[w].res_r, tmp.as_mut_ptr() as *mut libc::c_void, tmp.len()) };
+            if nrd < 0 {
+                continue;
+            }
+            if nrd == 0 {
+                harness_die("a zygote worker died");
+            }
+            zs[w].buf.extend_from_slice(&tmp[..nrd as usize]);
+            loop {
+                let b = &zs[w].buf;
+                if b.len() < 13 {
+                    break;
+                }
+                let i = u32::from_le_bytes([b[0], b[1], b[2], b[3]]) as usize;
+                let exit = Exit::from_bytes(&b[4..9]);
+                let len = u32::from_le_bytes([b[9], b[10], b[11], b[12]]) as usize;
+                if b.len() < 13 + len {
+                    break;
+                }
+                let bytes = b[13..13 + len].to_vec();
+                zs[w].buf.drain(..13 + len);
+                zs[w].busy = None;
+                inflight -= 1;
+                sink(i, bytes, exit);
+            }
+        }
+    }
+}
